@@ -38,97 +38,7 @@ extern void     svt_verif_trace_flush(void) __attribute__((weak));
 extern int64_t  svt_verif_live_entries(int type) __attribute__((weak));
 extern int64_t  svt_verif_live_bytes(void) __attribute__((weak));
 
-/* ------------------------------------------------------------ config field table */
-typedef EbSvtAv1EncConfiguration Cfg;
-enum { K_SIGNED, K_UNSIGNED, K_BLOB };
-typedef struct {
-    const char *name;
-    size_t      off, size, elem;
-    int         kind;
-} Field;
-#define KIND_OF(x)                                                                                         \
-    _Generic((x), int8_t : K_SIGNED, int16_t : K_SIGNED, int32_t : K_SIGNED, int64_t : K_SIGNED, char : K_SIGNED, \
-             default : K_UNSIGNED)
-#define F(n) {#n, offsetof(Cfg, n), sizeof(((Cfg *)0)->n), sizeof(((Cfg *)0)->n), KIND_OF(((Cfg *)0)->n)},
-#define FA(n, cnt) {#n, offsetof(Cfg, n), sizeof(((Cfg *)0)->n), sizeof(((Cfg *)0)->n[0]), KIND_OF(((Cfg *)0)->n[0])},
-#define FB(n) {#n, offsetof(Cfg, n), sizeof(((Cfg *)0)->n), sizeof(((Cfg *)0)->n), K_BLOB},
-static const Field g_fields[] = {
-#include "cfgfields.inc"
-};
-#define NFIELDS ((int)(sizeof(g_fields) / sizeof(g_fields[0])))
-
-static int set_field(Cfg *cfg, const char *key, const char *val) {
-    /* key: name or name[i] */
-    char name[96];
-    int  idx = 0;
-    const char *br = strchr(key, '[');
-    if (br) {
-        size_t n = (size_t)(br - key);
-        if (n >= sizeof(name))
-            return -1;
-        memcpy(name, key, n);
-        name[n] = 0;
-        idx     = atoi(br + 1);
-    } else {
-        snprintf(name, sizeof(name), "%s", key);
-    }
-    for (int i = 0; i < NFIELDS; i++) {
-        const Field *f = &g_fields[i];
-        if (strcmp(f->name, name))
-            continue;
-        if (f->kind == K_BLOB)
-            return -1;
-        if (idx < 0 || (size_t)idx >= f->size / f->elem)
-            return -1;
-        uint8_t *p = (uint8_t *)cfg + f->off + (size_t)idx * f->elem;
-        if (f->kind == K_SIGNED) {
-            long long v = strtoll(val, NULL, 0);
-            switch (f->elem) {
-            case 1: *(int8_t *)p = (int8_t)v; break;
-            case 2: *(int16_t *)p = (int16_t)v; break;
-            case 4: *(int32_t *)p = (int32_t)v; break;
-            default: *(int64_t *)p = (int64_t)v; break;
-            }
-        } else {
-            unsigned long long v = (val[0] == '-') ? (unsigned long long)strtoll(val, NULL, 0) : strtoull(val, NULL, 0);
-            switch (f->elem) {
-            case 1: *(uint8_t *)p = (uint8_t)v; break;
-            case 2: *(uint16_t *)p = (uint16_t)v; break;
-            case 4: *(uint32_t *)p = (uint32_t)v; break;
-            default: *(uint64_t *)p = (uint64_t)v; break;
-            }
-        }
-        return 0;
-    }
-    return -1;
-}
-
-static void dump_cfg(FILE *f, const Cfg *cfg) {
-    fprintf(f, "{");
-    int first = 1;
-    for (int i = 0; i < NFIELDS; i++) {
-        const Field *fd = &g_fields[i];
-        if (fd->kind == K_BLOB)
-            continue;
-        size_t cnt = fd->size / fd->elem;
-        fprintf(f, "%s\"%s\":", first ? "" : ",", fd->name);
-        first = 0;
-        if (cnt > 1)
-            fprintf(f, "[");
-        for (size_t k = 0; k < cnt; k++) {
-            const uint8_t *p = (const uint8_t *)cfg + fd->off + k * fd->elem;
-            long long      v;
-            if (fd->kind == K_SIGNED)
-                v = fd->elem == 1 ? *(const int8_t *)p : fd->elem == 2 ? *(const int16_t *)p : fd->elem == 4 ? *(const int32_t *)p : *(const int64_t *)p;
-            else
-                v = fd->elem == 1 ? *(const uint8_t *)p : fd->elem == 2 ? *(const uint16_t *)p : fd->elem == 4 ? *(const uint32_t *)p : (long long)*(const uint64_t *)p;
-            fprintf(f, "%s%lld", k ? "," : "", v);
-        }
-        if (cnt > 1)
-            fprintf(f, "]");
-    }
-    fprintf(f, "}");
-}
+#include "cfgtable.h"
 
 /* ------------------------------------------------------------ boundary log */
 static FILE *   g_log;
